@@ -563,10 +563,10 @@ pub fn run(ctx: &mut Ctx) {
         }
         v
     };
-    let nl = layouts.len() as u64 * 3;
+    let nl = layouts.len() as u64 * 4;
     ctx.family("parent-std-free", nl, move |ctx, rng, i| {
-        let (free, (a, b, c)) = layouts[(i / 3) as usize];
-        let mode = i % 3; // 0: nothing goes wrong, 1: the program does not exist, 2: an injected child-side failure
+        let (free, (a, b, c)) = layouts[(i / 4) as usize];
+        let mode = i % 4; // 0: nothing goes wrong, 1: the program does not exist, 2: an injected child-side failure, 3: a parent-side one
         let cfg = Cfg { sin: a, sout: b, serr: c, detached: rng.chance(300), cwd: false, setuid: false, setgid: false, setpgid: rng.chance(300), exe_override: false, path_search: false, env: false, free_std: free };
         let dir = ctx.scratch_keep("c07l");
         let what;
@@ -580,6 +580,20 @@ pub fn run(ctx: &mut Ctx) {
                 let mut l = launch(ctx, &cfg, &dir, &[], Some((vec![dir.join("does-not-exist").into_os_string(), OsString::from("a")], None)), None);
                 if l.result.is_ok() {
                     l.expected_exe = "<nothing can be started>".into();
+                }
+                l
+            }
+            3 => {
+                // descriptor exhaustion at one of the parent's own steps (creating, flagging or moving a descriptor, forking)
+                let kind = *rng.pick(&[k::FCNTL, k::FCNTL, k::PIPE, k::FORK]);
+                let nth = rng.range(1, 8) as u32;
+                what = format!("parent-std-free/parent:{}", k::name(kind));
+                let rule = Rule { kind, scope: plan::SCOPE_PARENT, nth, fd: -1, act: plan::ACT_FAIL, val: *rng.pick(&[libc::EMFILE, libc::ENFILE, libc::ENOMEM]) as i64, prob: 1000 };
+                let l = launch(ctx, &cfg, &dir, &[rule], None, None);
+                if l.fired[0] == 0 {
+                    ctx.count("injections_not_reached", 1);
+                    let _ = std::fs::remove_dir_all(&dir);
+                    return;
                 }
                 l
             }
